@@ -41,14 +41,14 @@ fn engines_for(property: &str) -> Vec<(Box<dyn Engine>, u64, u64)> {
         "C08" => vec![
             (Box::new(ChanInline), 1_000_000, 20_000_000),
             (Box::new(ChanThreads), 100_000, 3_000_000),
-            (Box::new(CallingContexts), 1200, 6000),
+            (Box::new(CallingContexts), 2400, 12000),
             (Box::new(FileE2e), 30_000, 1_000_000),
             (Box::new(OtlpSim { focus: "C12" }), 15_000, 500_000),
         ],
         "C09" => vec![
             (Box::new(ChanInline), 1_000_000, 20_000_000),
             (Box::new(ChanThreads), 100_000, 3_000_000),
-            (Box::new(CallingContexts), 1200, 6000),
+            (Box::new(CallingContexts), 2400, 12000),
             (Box::new(FileE2e), 30_000, 1_000_000),
             (Box::new(OtlpSim { focus: "C12" }), 15_000, 500_000),
         ],
